@@ -107,5 +107,7 @@ def harnesses(tier, seed):
         for ops in ([F(3), FL(6)], [M(1), F(3), FL(6)], [FM(5), FL(6)], [FM(5), F(3), FL(6)], [FL(6), FM(5)],
                     [FL(6), F(3), M(1)], [FL(6), F(3), FL(6)], [FL(6), F(3), FM(5)]):
             for term in ("count", "collect_vec"):
+                if term == "collect_vec" and sum(1 for o in ops if o.kind == "flat_map") > 1:
+                    continue   # two flat_maps into a Vec: > 15 GB / > 25 min
                 hs.append(seq(term, None, ops=ops))
     return hs
